@@ -796,7 +796,7 @@ class Converter:
             squeezed_axes = []
             for axis, expr in scalar_indices:
                 # Treat a scalar index i as slice "i:i+1:1", but squeeze the axis finally.
-                # TODO: handle negative i
+                # For i == -1 the end would be 0 and select nothing: slice to the end instead.
                 index = self._eval_constant_expr(expr)
                 squeezed_axes.append(axis)
                 kwargs = dict(
@@ -805,7 +805,7 @@ class Converter:
                 )
                 element = ast.Slice(
                     ast.Constant(index, **kwargs),
-                    ast.Constant(index + 1, **kwargs),
+                    ast.Constant(index + 1 if index != -1 else maxint, **kwargs),
                     ast.Constant(1, **kwargs),
                 )
                 sliced_indices.append((axis, element))
